@@ -137,6 +137,11 @@ func (og *OverlapGenerator) GenerateOverlap(chunkText string) *OverlapResult {
 		overlap = og.truncateOverlap(overlap)
 	}
 
+	// An overlap below the configured minimum is not worth repeating: skip it
+	if len(overlap) < og.config.MinOverlap {
+		return &OverlapResult{Strategy: og.config.Strategy}
+	}
+
 	return &OverlapResult{
 		Text:          overlap,
 		CharCount:     len(overlap),
